@@ -742,6 +742,7 @@ func runC07(args []string) {
 		}
 		if has("st") && c.Funcs["NewEncoder"].IsValid() {
 			total += c07RunStreams(*out, c, *seed, *tier)
+			total += c07RunObjects(*out, c, *seed, *tier)
 		}
 		if has("gt") && c.Types["GT"] != nil {
 			r := newRng(*seed*523 + uint64(len(name))*7 + uint64(name[len(name)-1]))
